@@ -199,7 +199,11 @@ def closed_form(ctx, fwd, qa):
                                   'the %s coordinate of the wrist centre differs from the published closed form' % 'xyz'[k], found=show(cen[2 + k], maxdepth=6), expected=show(centre[k], maxdepth=6), detail='matches')
                     w = algebra.word(tip)
                     names = [show(a, maxdepth=2) for a, e in w]
-                    ok = len(w) == 4 and all(e == 1 for a, e in w) and 'c4' in names[0] and w[1][0] == algebra.canon(A) and w[2][0] == algebra.canon(B) and 'unit_z' in names[3]
+                    # the scalar c4 commutes: it may stand anywhere in the product, the matrix factors may not move
+                    scal = [i for i, (a, e) in enumerate(w) if isinstance(a, tuple) and a[0] == 'fld' and a[2] == 'c4']
+                    rest = [x for i, x in enumerate(w) if i not in scal]
+                    ok = len(scal) == 1 and len(rest) == 3 and all(e == 1 for a, e in w) and rest[0][0] == algebra.canon(A) and rest[1][0] == algebra.canon(B) \
+                        and 'unit_z' in show(rest[2][0], maxdepth=2)
             ctx.check(ok, 'R03.5', 'flange-offset', fwd.where(0), fwd.path, 'the tool flange must be wrist centre + c4 * R_0c * R_ce * z', found=show(tr, maxdepth=3))
 
 
